@@ -142,6 +142,9 @@ func registry() map[string]PropSpec {
 			{Pkg: ".", Name: "c17_fullsource", Quick: map[string]int{"len": 8}, Thorough: map[string]int{"len": 12}, Unwind: [2]int{96, 128}, Budget: [2]int{120, 1500},
 				Models: []string{"net/url.Parse=vpModelURLParse", "path.Join=vpModelPathJoin"}, Validate: []string{"urlparse", "pathjoin"},
 				What:   "FullSource on every source of up to len bytes over [ab0._/-#:@\\] inside the documented forms equals the documented rules; a second application is the identity; MarshalYAML keys by the canonical source"},
+			{Pkg: ".", Name: "c17_dictionary", Quick: map[string]int{"words": 1}, Thorough: map[string]int{"words": 2}, Unwind: [2]int{128, 160}, Budget: [2]int{120, 1500},
+				Models: []string{"net/url.Parse=vpModelURLParse", "path.Join=vpModelPathJoin"},
+				What:   "same oracle on sources assembled from symbolic pieces and the string constants found in FullSource's current SSA (a dictionary that follows the code: suffixes, hosts, separators), so inputs far longer than the byte bound that contain the code's own magic strings are covered"},
 			{Pkg: ".", Name: "tv_fullsource", Quick: map[string]int{}, Unwind: [2]int{128, 128},
 				Models: []string{"net/url.Parse=vpModelURLParse", "path.Join=vpModelPathJoin"},
 				What:   "translator validation: the repository's own TestPluginFullSource table, concrete, through the engine and the models"},
@@ -159,9 +162,9 @@ func registry() map[string]PropSpec {
 		Harnesses: []HSpec{
 			{Pkg: "ordered", Name: "c07_merge_chain", Quick: map[string]int{}, Unwind: [2]int{32, 32},
 				What: "DecodeYAML on merge chains (root merges a and/or c by alias or sequence of aliases, a merges c, merge at any position, symbolic keys): content and order equal the reference of the merge rules"},
-			{Pkg: "ordered", Name: "c07_graph", Quick: map[string]int{"pool": 1, "poolentries": 1, "rootentries": 2}, Thorough: map[string]int{"pool": 1, "poolentries": 2, "rootentries": 2}, Unwind: [2]int{32, 48}, Budget: [2]int{120, 1500},
+			{Pkg: "ordered", Name: "c07_graph", Quick: map[string]int{"pool": 1, "poolentries": 1, "rootentries": 2, "poolnested": 1}, Thorough: map[string]int{"pool": 1, "poolentries": 2, "rootentries": 2, "poolnested": 1}, Unwind: [2]int{32, 48}, Budget: [2]int{120, 1500},
 				What: "DecodeYAML on arbitrary small node graphs (value aliases incl. self/mutual cycles, aliases in sequences, alias keys, merges by alias / sequence / inline mapping, nested mappings): error iff a value cycle exists, otherwise equal to the reference; aliases expand to independent copies"},
-			{Pkg: "ordered", Name: "c07_graph", Quick: map[string]int{"pool": 1, "poolentries": 2, "rootentries": 1}, Thorough: map[string]int{"pool": 2, "poolentries": 1, "rootentries": 2}, Unwind: [2]int{32, 48}, Budget: [2]int{120, 1500},
+			{Pkg: "ordered", Name: "c07_graph", Quick: map[string]int{"pool": 1, "poolentries": 2, "rootentries": 1, "poolnested": 0}, Thorough: map[string]int{"pool": 2, "poolentries": 1, "rootentries": 2, "poolnested": 1}, Unwind: [2]int{32, 48}, Budget: [2]int{120, 1500},
 				What: "same, other distribution of entries between root and anchored mappings (two anchors in the thorough tier: mutual cycles, sequences of two merge sources)"},
 		},
 		Outside: []string{
@@ -290,12 +293,15 @@ func registry() map[string]PropSpec {
 	add(PropSpec{
 		ID: "C06",
 		Harnesses: []HSpec{
-			{Pkg: "signature", Name: "c06_signsteps", Quick: map[string]int{"depth": 0, "width": 2}, Thorough: map[string]int{"depth": 1, "width": 2}, Unwind: [2]int{64, 64}, Budget: [2]int{120, 1500}, FixedMapOrder: true,
+			{Pkg: "signature", Name: "c06_signsteps", Quick: map[string]int{"depth": 0, "width": 2, "lite": 0}, Thorough: map[string]int{"depth": 1, "width": 2, "lite": 0}, Unwind: [2]int{64, 64}, Budget: [2]int{120, 1500}, FixedMapOrder: true,
 				Models: []string{"net/url.Parse=vpModelURLParse", "path.Join=vpModelPathJoin"},
 				What:   "SignSteps over step lists of every kind mix (command, wait, input, trigger, group, unknown), pipeline env / step env overlaps, EdDSA/ES512/PS512 JWKs and an ES256 crypto.Signer: refusal iff an unknown step occurs anywhere; otherwise every command step at every depth has a signature naming the key's algorithm with exactly the expected sorted field list, it verifies, and nothing but Signature is written (step, plugins, caller env)"},
-			{Pkg: "signature", Name: "c06_signsteps", Quick: map[string]int{"depth": 2, "width": 1}, Thorough: map[string]int{"depth": 3, "width": 1}, Unwind: [2]int{64, 64}, Budget: [2]int{120, 1500},
+			{Pkg: "signature", Name: "c06_signsteps", Quick: map[string]int{"depth": 2, "width": 1, "lite": 0}, Thorough: map[string]int{"depth": 3, "width": 1, "lite": 0}, Unwind: [2]int{64, 64}, Budget: [2]int{120, 1500},
 				Models: []string{"net/url.Parse=vpModelURLParse", "path.Join=vpModelPathJoin"},
 				What:   "same with one step per level and groups nested to depth 2 (quick) / 3 (thorough)"},
+			{Pkg: "signature", Name: "c06_signsteps", Quick: map[string]int{"depth": 1, "width": 2, "lite": 1}, Thorough: map[string]int{"depth": 2, "width": 2, "lite": 1}, Unwind: [2]int{64, 64}, Budget: [2]int{120, 1500}, FixedMapOrder: true,
+				Models: []string{"net/url.Parse=vpModelURLParse", "path.Join=vpModelPathJoin"},
+				What:   "step-kind mixes with two steps per level inside nested groups (every position of an unknown step relative to groups and other steps); command steps kept minimal, one key kind"},
 		},
 		Outside: []string{"nesting depth 4 (bound: 2 quick / 3 thorough with one step per level; 0 / 1 with two steps per level); real cryptography (idealised)"},
 		Assumptions: []string{"ideal signature scheme: jws.Sign(k, alg, P) is the atom sigma(k, alg, P); jws.Verify succeeds iff the presented value is such an atom made with an offered key (same key-pair identity and algorithm) over an equal payload; values not produced by Sign never verify. Natively replays use real generated EdDSA/ES512/PS512/ES256 keys",
